@@ -621,11 +621,12 @@ func runHarness(h harnessSpec, tier string, seed int) harnessResult {
 	}
 	if runErr != nil && len(res.failures) == 0 {
 		// the harness failed without a structured failure line: panic, timeout or build error
-		txt := out.String()
+		full := out.String()
+		txt := full
 		if len(txt) > 4000 {
-			txt = txt[len(txt)-4000:]
+			txt = txt[:2000] + "\n[...]\n" + txt[len(txt)-2000:]
 		}
-		if strings.Contains(txt, "panic:") || strings.Contains(txt, "test timed out") || strings.Contains(txt, "--- FAIL") {
+		if strings.Contains(full, "panic:") || strings.Contains(full, "fatal error:") || strings.Contains(full, "test timed out") || strings.Contains(full, "--- FAIL") || strings.Contains(full, "signal: ") {
 			res.failures = append(res.failures, harnessFailure{"crash", txt})
 		} else {
 			res.err = txt
